@@ -396,14 +396,15 @@ def replay_behaviour(beh, cfg, tables, tid, N, seed):
             # wires whose initial tensor is still directly the output leg (see KF-C07-3)
             if k == "uni":
                 fields["bare"] = _bare_wires(o.accepted, N)
-            if k in ("amp", "marg"):
+            if k in ("amp", "marg", "expec"):
                 fields["zero"] = _is_zero_value(o, q)
+            hf = _hflags(o.accepted, o)
             try:
                 v = o.query(q, rng_seed=seed + seq[0])
                 vok, val = _snap_value(k, v, cfg.tol, len(o.accepted))
-                rec("query", vok=vok, val=val, h=_hflags(o.accepted, o), **fields)
+                rec("query", vok=vok, val=val, h=hf, nan=_has_nan(k, v), **fields)
             except Exception as ex:  # noqa
-                rec("query", vok=False, val=[], exc=_exc_name(ex), h=_hflags(o.accepted, o), **fields)
+                rec("query", vok=False, val=[], exc=_exc_name(ex), h=hf, nan=False, **fields)
         else:
             raise RuntimeError("unknown model action %r" % (a,))
     return recs
@@ -434,9 +435,9 @@ def enum_behaviour(seq3, k):
           {"op": "gate", "g": cx12}, {"op": "switch"}, {"op": "query", "q": dict(e0)}, {"op": "query", "q": {"kind": "ptr", "keep": [2]}},
           {"op": "switch"}, {"op": "query", "q": dict(e21)}, {"op": "query", "q": {"kind": "dense", "rev": False}}]
     # query options, each query twice
-    for q in ({"kind": "amp", "b": [1, 0, 1], "opt": "dtype"}, {"kind": "ptr", "keep": [2, 0], "opt": "seq"},
-              {"kind": "expec", "op": "P01", "where": [2], "opt": "seq"}, {"kind": "dense", "rev": False, "opt": "dtype"},
-              {"kind": "expec", "op": "P01", "where": [0], "opt": "dtype"}):
+    b += [{"op": "query", "q": {"kind": "amp", "b": [1, 0, 1], "opt": "dtype"}},
+          {"op": "query", "q": {"kind": "ptr", "keep": [2, 0], "opt": "seq"}}]
+    for q in ({"kind": "expec", "op": "ZX", "where": [2, 0], "opt": "seq"}, {"kind": "expec", "op": "Z", "where": [0], "opt": "dtype"}):
         b += [{"op": "query", "q": dict(q)}, {"op": "query", "q": dict(q)}]
     return b
 
@@ -468,6 +469,15 @@ def _is_zero_value(o, q):
                 gs.append(dict(g, name="RAW", U=U) if U is not None else dict(g, ang=_angles(g["p"])))
         ref = np_state(gs, o.N)
         return bool(np.sum(np.abs(np_query(q, ref, gs, o.N))) < 1e-12)
+    except Exception:  # noqa
+        return False
+
+
+def _has_nan(kind, v):
+    if kind in ("sample", "gbg", "sampleprob"):
+        return False
+    try:
+        return bool(np.any(~np.isfinite(np.asarray(v, dtype=complex))))
     except Exception:  # noqa
         return False
 
@@ -750,8 +760,9 @@ def random_walk(seed, tid, cfgs, N, length, thorough):
                 r = dict(base, ev="rel", exc="", dq=0, h=_hflags(o.accepted, o), **_qfields(q))
                 if q["kind"] == "uni":
                     r["bare"] = _bare_wires(o.accepted, N)
-                if q["kind"] in ("amp", "marg"):
+                if q["kind"] in ("amp", "marg", "expec"):
                     r["zero"] = bool(np.sum(np.abs(np_query(q, ref, o.accepted, N))) < 1e-12)
+                r["nan"] = False
                 if q["kind"] == "dense" and q["rev"] and cfg.edges is not None:
                     continue
                 if q["kind"] == "expec" and cfg.edges is not None and len(q["where"]) == 2 and abs(q["where"][0] - q["where"][1]) != 1:
@@ -759,6 +770,7 @@ def random_walk(seed, tid, cfgs, N, length, thorough):
                 try:
                     use128 = qr.random() < 0.5
                     v = o.query(q, dtype128=use128)
+                    r["nan"] = _has_nan(q["kind"], v)
                     tol = cfg.rtol
                     if q["kind"] == "marg" and cfg.cls in ("Circuit", "CircuitDense"):
                         # documented defaults of compute_marginal: simplify_atol = 1e-6 and (unless overridden) complex64
@@ -850,11 +862,13 @@ def random_walk(seed, tid, cfgs, N, length, thorough):
                     r["h"]["expcopy"] = True
                 if q["kind"] == "uni":
                     r["bare"] = _bare_wires(o.accepted, N)
-                if q["kind"] in ("amp", "marg"):
+                if q["kind"] in ("amp", "marg", "expec"):
                     r["zero"] = bool(np.sum(np.abs(np_query(q, ref, o.accepted, N))) < 1e-12)
+                r["nan"] = False
                 try:
                     tol = 1e-5 if (q["kind"] == "marg" and cfg.cls in ("Circuit", "CircuitDense")) else cfg.rtol
                     v1 = np.asarray(o.query(q))
+                    r["nan"] = _has_nan(q["kind"], v1)
                     r["dqref"] = qdiff(v1, np.asarray(np_query(q, ref, o.accepted, N)), tol)
                     if fresh is not None:
                         v2 = np.asarray(fresh.query(q))
@@ -1007,8 +1021,8 @@ def run(ctx):
     for k, seq3 in enumerate(enum):
         b = enum_behaviour(seq3, k)
         use = [cfgs[0]] + ([others[(k + ctx.seed) % len(others)]] if quick else others)
-        if quick and k % 2 != ctx.seed % 2:
-            use = use[1:]
+        if quick:       # quick tier: a third of the sequences on the exact class, two thirds on one other configuration
+            use = ([use[0]] if k % 3 == ctx.seed % 3 else []) + ([use[1]] if k % 3 != (ctx.seed + 1) % 3 else [])
         for cfg in use:
             recs += replay_behaviour(b, cfg, tables, tid, 3, 7000 + k)
             tid += 1
